@@ -9,7 +9,10 @@ from vlib.common import Inconclusive, Scratch, log
 
 REPR = ["repr_inline_roundtrip", "repr_from_string_agrees", "repr_long_strings_are_not_inlined", "repr_eq_iff_same_string",
         "repr_id_roundtrip", "repr_inline_and_id_never_collide", "repr_const_literal_ctors"]
-GC = ["gc_sweep_step", "gc_mark_step", "alloc_static_step", "alloc_string_step", "make_permanent_step", "alloc_then_sweep_two_steps"]
+GC = ["gc_sweep_w1", "gc_sweep_w2", "gc_sweep_w3", "gc_sweep_w5", "gc_sweep_blocked_by_unmarked_module", "gc_sweep_resumes_at_index",
+      "gc_mark_step", "marked_survives_one_round_only", "promote_static_then_sweep_unmarked", "promote_static_then_sweep_marked",
+      "make_permanent_then_sweep", "realloc_after_reclaim_is_fresh"]
+GC_THOROUGH = ["alloc_string_interns"]
 
 USE_LINE = "  collections::{HashMap, HashSet},\n"
 
@@ -27,14 +30,14 @@ def prepare(sc):
 
 
 def run(res, tier, a):
-    harnesses = REPR + GC
+    harnesses = REPR + GC + (GC_THOROUGH if tier != "quick" else [])
     per_cap = 600 if tier == "quick" else 2400
     t0 = time.time()
     results = {}
     with Scratch("C17") as sc:
         prepare(sc)
         # one cargo-kani process per group, each with its own target dir (concurrent runs must not share one)
-        groups = [REPR[:4], REPR[4:], GC[:2], GC[2:4], GC[4:]]
+        groups = [REPR] + [[h] for h in GC] + ([[h] for h in GC_THOROUGH] if tier != "quick" else [])
         with concurrent.futures.ThreadPoolExecutor(max_workers=len(groups)) as ex:
             futs = {ex.submit(kani.run_harnesses, sc, "samlang-heap", g, per_cap * len(g), 12, (), "kani%d" % i): g for i, g in enumerate(groups)}
             for f in concurrent.futures.as_completed(futs):
@@ -51,8 +54,9 @@ def run(res, tier, a):
         "traces_validated_against_impl": 0,
         "harnesses": {h: {k: v for k, v in results.get(h, {}).items() if k in ("status", "time", "covers_summary", "failed_checks")} for h in harnesses},
         "bounds": {"inline strings": "all byte strings <= 15 bytes without 0xFF (superset of valid UTF-8)", "eq/ord": "<= 6 bytes each",
-                   "gc table": "3 slots (sweep/mark), 2 slots (alloc/promote), 17-byte concrete distinct contents, symbolic kinds/marks/sweep_index/work unit <= 4/unmarked-set emptiness",
-                   "unwind": "17-20 with unwinding assertions"},
+                   "gc": "fixed small tables (1-3 slots, concrete 16-19 byte contents, concrete kinds and marks); symbolic: the marked slot (gc_mark_step), "
+                         "the chosen string and generation (alloc_string_interns, thorough). A symbolic table was measured to exhaust memory (> 25 GB) and is not claimed.",
+                   "unwind": "17-22 with unwinding assertions"},
         "explanation": "states = harnesses proved; transitions = harnesses run; each harness is one symbolic step from an arbitrary valid state",
         "kani_wall_s": round(time.time() - t0, 1),
     })
